@@ -61,6 +61,10 @@ pub enum Expect {
     SchemaConsistent,
     /// free-form expectation evaluated by the owning check (`check` names it)
     Custom { check: String, data: String },
+    /// violated only if every member is violated (used to require that a
+    /// mismatch is explained neither by the strict model nor by the model with
+    /// the recorded deviations switched on)
+    AllOf(Vec<Expect>),
 }
 
 #[derive(Debug, Clone, Serialize, Deserialize)]
